@@ -1,19 +1,49 @@
 import os
 
 SOLVER = os.environ.get("C19_SOLVER", "cadical")
-ALLKF = ["KF_AVAIL_FRESH", "KF_STALE_PREV", "KF_SLOW_STUCK", "KF_FALSE_DROP", "KF_GATHER_SKIP", "KF_DSZ", "KF_ROUND_WRAP"]
+# KF_AVAIL_FRESH and KF_ROUND_WRAP were repaired in /repo (known_findings.json: fixed). The other five are recorded, unrepaired known
+# findings: their defines are injected by bin/check from /verif/known_findings.json (status "known"), not from here.
+ALLKF = []
 # C19_NOKF=all (none in force) or a comma list of guards to switch off (to exhibit that finding on the unchanged tree)
 _off = os.environ.get("C19_NOKF", "")
 KF = {} if _off == "all" else {k: None for k in ALLKF if k not in _off.split(",")}   # known-finding guards in force: {"KF_<NAME>": None}
 
 META = {
-    "bounds": "TBD",
-    "outside": "TBD",
-    "assumptions": [],
-    "harness_functions": ["harness", "check_regions", "note_drop", "in_ring", "v_mapalloc_fd", "v_mapfree", "v_raise",
-                          "v_calloc"],
+    "bounds": "ring_buffer.c included whole; rings of 8 bytes (min_block 2 and 3), 10/2 and 12/2 (quick: 3 steps), 6/2; one reader "
+              "(two in one job; readers never modify r_buf_t, so they are independent); histories given as schedule patterns "
+              "(letters: v = writer step wbuf_get->fill->wbuf_set|wbuf_set2(+optional rpos) or rpos_init or nothing, "
+              "g = data_get(any size, iov_cnt 3)+rpos_inc(n <= bytes given), a = data_avail_size + full data_get, x = any); every "
+              "operation kind, size, offset, increment is a solver variable. quick: <= 3 steps on rings 8/2, 10/2, 12/2, <= 4 steps on ring 8/3 "
+              "(one wrap, two with full-ring writes); thorough: 4-5 steps on 8/2, <= 6 steps on 8/3 and 6/2, 4 on 10/2 and 12/2; round counter started at SIZE_MAX-1 in the '-late' jobs. "
+              "Asserted: every iovec handed to a reader and every writer region inside [buf, buf+size); bytes handed to a reader "
+              "carry exactly consecutive stream sequence numbers from its expectation (ghost shadow per ring byte) or a drop was "
+              "reported and the stream resumes strictly later; no drop together with data; no drop for a reader whose unread data "
+              "is all in the writer's current round; after a drop the position is valid again (r_buf_rpos_check_fast); "
+              "data_avail_size == sum of iov_len of a full read; *data_size_ret == bytes in the regions; rpos_inc never reaches its "
+              "'BUG' branch; all CBMC built-in memory checks. Seven genuine defects found (findings/*.md), each blocked by a KF_ guard.",
+    "outside": "histories longer than the pattern lengths above; rings other than 6/8/10/12 bytes, min_block_size > 3; the exact numeric "
+               "value of drop_size (by design an estimate in units of the ring size - only 'drop_size > 0 iff told' is used); "
+               "r_buf_rpos_inc called after an intervening writer step or with more than was handed out (caller contract); "
+               "r_buf_wbuf_set with buf_size larger than r_buf_wbuf_get returned (caller cannot have filled it; note: the "
+               "'not enough space' check tests data_size, not buf_size); r_buf_rpos_cmp / r_buf_rpos_calc_size / "
+               "r_buf_rpos_init_near / r_buf_data_get_conv2off / r_buf_free; mmap failure paths; the writer-region-does-not-overlap-"
+               "reader-data clause of DESIGN 5.19 is not a design property (lossy ring: the writer may overwrite slow readers) and "
+               "is replaced by the reader-side stale-byte assertion; input classes blocked by the KF_ guards in force.",
+    "assumptions": [
+        "mapalloc_fd/mapalloc -> typed static objects of the requested sizes (ring: SIZE bytes); mapfree -> no-op",
+        "iov table: r_buf_alloc requests size/min_block+32 entries; only IOVTAB = size/min_block+2 are materialised - any access "
+        "beyond is an array-bounds violation and would be reported, so HOLD carries over to the full table",
+        "sysconf(_SC_PAGE_SIZE) -> sizeof(iovec_t); calloc(1, sizeof(r_buf_t)) -> one typed zeroed static object",
+        "raise(SIGTRAP) in debug_break -> flag that is asserted never to be set",
+        "writer step is atomic w.r.t. readers: wbuf_get, fill, wbuf_set/wbuf_set2 with sizes that fit the region handed out",
+        "round_num of the freshly allocated empty ring is set directly to SIZE_MAX-1 in the '-late' jobs (not reachable in bounded time)",
+        "r_buf_data_get callers pre-set *drop_size to 0 (the function does not write it on its early-return path)",
+        "KF guards in force (block exactly the input class of a reported defect): " + ", ".join(sorted(KF)),
+    ],
+    "harness_functions": ["harness", "check_regions", "note_drop", "in_ring", "v_mapalloc_fd", "v_mapfree", "v_raise", "v_calloc",
+                          "writer_step", "reader_step", "v_mask", "prev_round", "prev_round_unread", "kf_pre_guards",
+                          "gather_skipped", "regions_total"],
 }
-
 
 def ring_job(pat, size=8, mbs=2, nr=1, round0=None, timeout=None, extra=None, pi=None, px=None, tag=""):
     """pat: one letter per step (w writer, g get+inc, a avail+full read, i rpos_init, r any reader op, x any)"""
@@ -40,12 +70,25 @@ def ring_job(pat, size=8, mbs=2, nr=1, round0=None, timeout=None, extra=None, pi
     return j
 
 
+def parse_spec(spec):
+    pat, _, shape = spec.partition(":")
+    late = pat.endswith("!")
+    pat = pat.rstrip("!")
+    nr = 2 if pat.endswith("2") else 1
+    pat = pat.rstrip("2")
+    size, mbs = (int(x) for x in shape.split("/")) if shape else (8, 2)
+    return pat, size, mbs, nr, late
+
+
+QUICK = "x:8/2 xx:8/2 vvg:8/2 vva:8/2 vvvg:8/3 vvva:8/3 vvvg!:8/3 vgvg:8/3 vvg:10/2 vva:12/2 vvg2:8/3"
+THOROUGH = QUICK + " vvvg:8/2 vvvvg:8/3 vvva:8/2 vgvg:8/2 vvvvg:8/2 vvvva:8/3 vvvvvg:8/3 vvvgvg:8/3 vvvgvg!:8/3 vgvvg:8/3 vvvg:10/2 vvvg:12/2 vvvvvg:6/2"
+
+
 def jobs(tier):
     out = []
-    for spec in os.environ.get("C19_PATS", "x xx vvg vva vvvg vvva vgvg").split():
-        pat, _, shape = spec.partition(":")
-        late = pat.endswith("!")
-        pat = pat.rstrip("!")
-        size, mbs = (int(x) for x in shape.split("/")) if shape else (8, 2)
-        out.append(ring_job(pat, size, mbs, round0="(SIZE_MAX-1)" if late else None, pi=os.environ.get("C19_PI")))
+    specs = os.environ.get("C19_PATS") or (QUICK if tier == "quick" else THOROUGH)
+    for spec in specs.split():
+        pat, size, mbs, nr, late = parse_spec(spec)
+        out.append(ring_job(pat, size, mbs, nr=nr, round0="(SIZE_MAX-1)" if late else None, pi=os.environ.get("C19_PI"),
+                            timeout=450 if tier == "quick" else 1500))
     return out
